@@ -106,14 +106,35 @@ func (w *World) Genesis() *chain.Genesis {
 	}
 }
 
-// DeputyByMiner finds the deputy owning a miner address.
+// DeputyByMiner finds the deputy owning a miner address (genesis deputies, or users who registered as candidates
+// and were elected: their node key is the one CandidateProfile publishes).
 func (w *World) DeputyByMiner(addr common.Address) *Deputy {
 	for _, d := range w.Deputies {
 		if d.Miner.Addr == addr {
 			return d
 		}
 	}
+	for _, u := range w.Users {
+		if u.Addr == addr {
+			return w.UserDeputy(u)
+		}
+	}
 	return nil
+}
+
+// UserDeputy is the deputy identity of a user who registered as candidate.
+func (w *World) UserDeputy(u *Actor) *Deputy {
+	nk := Key("node-of/" + u.Name)
+	return &Deputy{Index: -1, NodeKey: nk, NodeID: crypto.PrivateKeyToNodeID(nk), Miner: u, Income: u}
+}
+
+// AllDeputies lists the genesis deputies and every user's deputy identity.
+func (w *World) AllDeputies() []*Deputy {
+	res := append([]*Deputy{}, w.Deputies...)
+	for _, u := range w.Users {
+		res = append(res, w.UserDeputy(u))
+	}
+	return res
 }
 
 // ActorByAddr finds a known key holder.
